@@ -26,6 +26,18 @@ EXC = {
     "SystemExit": SystemExit, "Private": _Private,
 }
 EXC_NAMES = list(EXC)
+
+
+def make_exc(name: str, msg: str, salt: int = 0) -> BaseException:
+    """The injected object.  User code raises exceptions of every shape: with a message (2 of 4), with no arguments at
+    all (bare `raise E`), or with several non-string arguments - chosen by the invocation index, so no PRNG is involved."""
+    cls = EXC[name]
+    k = salt % 4
+    if k == 1:
+        return cls()
+    if k == 3:
+        return cls(salt, ("injected", msg))
+    return cls(msg)
 METHODS = ["render", "parse", "renderInline", "parseInline"]
 EXTRA_RENDER = ["paragraph_open", "em_open", "strong_close", "link_open", "list_item_open", "blockquote_open",
                 "heading_open", "hr", "td_open", "s_open", "bullet_list_close"]
@@ -63,7 +75,7 @@ class Plan:
         self.counts[site] = c
         a = self.armed
         if a is not None and a[0] == site and a[1] == c and self.fired is None:
-            self.exc_obj = EXC[a[2]](f"injected at {site} #{c}")
+            self.exc_obj = make_exc(a[2], f"injected at {site} #{c}", c)
             self.fired = {"site": site, "index": c, "exc": a[2], "ctx": ctx_fn() if ctx_fn else {}}
             raise self.exc_obj
 
@@ -190,6 +202,12 @@ def _env_plain(env):
     return {str(k): v for k, v in dict(env).items()}
 
 
+def _is_library_error(e) -> bool:
+    """The library's own documented errors for unknown rule names (facade: ValueError, Ruler: KeyError)."""
+    return (isinstance(e, ValueError) and "unknown rule" in str(e)) or \
+           (isinstance(e, KeyError) and "invalid rule name" in str(e))
+
+
 def _diff_snap(a: dict, b: dict) -> str | None:
     for k in ("active", "all", "options", "render"):
         if a[k] != b[k]:
@@ -238,7 +256,11 @@ def _gen_body(rng, depth=0):
             body.append(["raise", rng.choice(EXC_NAMES)])
         else:
             which = rng.choice(RULERS)
-            body.append(["ruler", which, rng.choice(["enable", "disable"]), rng.sample(RULE_POOLS[which], rng.randint(1, 2))])
+            names = rng.sample(RULE_POOLS[which], rng.randint(1, 2))
+            strict = rng.random() < 0.5
+            if strict and rng.random() < 0.6:
+                names.insert(rng.randint(0, len(names)), "nope")   # valid names before/after an unknown one: KeyError half-way
+            body.append(["ruler", which, rng.choice(["enable", "disable", "disable", "enableOnly"]), names, not strict])
     return body
 
 
@@ -434,13 +456,19 @@ class _Run:
             if kind in ("enable", "disable"):
                 getattr(self.md, kind)(list(op[1]))      # unknown name => the library's own ValueError escapes
             elif kind == "ruler":
-                getattr(_ruler(self.md, op[1]), op[2])(list(op[3]), True)
+                ignore = op[4] if len(op) > 4 else True
+                names = list(op[3])
+                if op[2] == "enableOnly":
+                    # keep the rules that guarantee progress (C01's supported configurations)
+                    names += [x for x in ("normalize", "block", "inline", "text_join", "paragraph", "text")
+                              if x in _ruler(self.md, op[1]).get_all_rules() and x not in names]
+                getattr(_ruler(self.md, op[1]), op[2])(names, ignore)   # strict + unknown name => KeyError escapes
             elif kind == "call":
                 e = self.call(f"{k}.{j}", op[1], op[2], op[3], in_reset=True)
                 if e is not None:
                     raise e
             elif kind == "raise":
-                self.body_exc = EXC[op[1]](f"raised by reset_rules body {k}.{j}")
+                self.body_exc = make_exc(op[1], f"raised by reset_rules body {k}.{j}", j + len(ops))
                 raise self.body_exc
             elif kind == "reset":
                 self.reset(op[1], f"{k}.{j}", depth + 1, nested=True)
@@ -460,8 +488,10 @@ class _Run:
         res.events.append([k, "reset", type(escaped).__name__ if escaped else "normal", self.md.get_active_rules()])
         if escaped is not None:
             res.count("reset_rules_exception_exit")
-            if isinstance(escaped, ValueError) and "unknown rule" in str(escaped):
+            if _is_library_error(escaped):
                 res.count("library_error_inside_reset_rules")
+                if isinstance(escaped, KeyError):
+                    res.count("strict_ruler_call_failed_midway_inside_reset_rules")
             res.nontrivial = True
         else:
             res.count("reset_rules_normal_exit")
@@ -496,7 +526,7 @@ class _Run:
                     res.fail("SWALLOWED", f"op {k}: {injected!r} raised inside the reset_rules block did not reach "
                                           f"the caller of the with-statement", "reset_rules:exception")
                 elif escaped is not None and injected is not None and escaped is not injected \
-                        and not (isinstance(escaped, ValueError) and "unknown rule" in str(escaped)):
+                        and not _is_library_error(escaped):
                     res.fail("REPLACED", f"op {k}: reset_rules body raised {injected!r} but the caller received "
                                          f"{escaped!r}", "reset_rules:exception")
                 if not res.violation and self.rec.get("chain_checks"):
@@ -560,7 +590,8 @@ class C14(Engine):
                   "stub": [], "simulated": ["the crash point (site, invocation index, exception type)"]}
     expected_probes = ["crash_in_silent_mode", "crash_inside_blockquote_or_list", "crash_inside_link_label",
                        "crash_inside_image_description", "crash_in_render_rule", "crash_in_highlight",
-                       "reset_rules_exception_exit", "reset_rules_nested", "library_error_inside_reset_rules"]
+                       "reset_rules_exception_exit", "reset_rules_nested", "library_error_inside_reset_rules",
+                       "strict_ruler_call_failed_midway_inside_reset_rules"]
 
     def budget(self, tier):
         if tier == "quick":
